@@ -43,7 +43,7 @@ def shift(t, k):
 
 @st.composite
 def _cases(draw, max_size=10):
-    s = draw(gen.score_sets(max_size=max_size, modes=MODES, mag=1e6, containers=("f64", "f64", "f32", "list", "neg-int", "pos-int", "neg-f32", "f128", "series")))
+    s = draw(gen.score_sets(max_size=max_size, modes=MODES, mag=1e6, containers=("f64", "f64", "f32", "list", "neg-int", "pos-int", "neg-f32", "f128", "series", "swapped")))
     if draw(st.integers(0, 9)) == 0:
         # scores held in a narrow signed integer type, reaching the ends of its range (the smallest value has
         # no negative in that type)
